@@ -69,14 +69,21 @@ def lean_sources_of(prop):
     return seen
 
 
+def sidecar(prop):
+    """harness/props/<id>.json: {"drivers": [lean_exe names], "translators": [files in harness/translators]}"""
+    p = os.path.join(HERE, 'props', prop.lower() + '.json')
+    return json.load(open(p)) if os.path.exists(p) else {}
+
+
 def regenerate(prop, bdir, log):
-    gen = os.path.join(HERE, 'translate.py')
-    if os.path.exists(gen):
+    """run the translators of this property: they rewrite lean/Generated/*.lean from /repo's current source"""
+    ok = True
+    for t in sidecar(prop).get('translators', []):
         env = dict(os.environ, PYTHONPATH=bdir + os.pathsep + VERIF)
-        p = subprocess.run([PY, gen], env=env, capture_output=True, text=True)
-        log.append(p.stdout[-2000:] + p.stderr[-2000:])
-        return p.returncode == 0
-    return True
+        p = subprocess.run([PY, os.path.join(HERE, 'translators', t)], env=env, cwd=VERIF, capture_output=True, text=True)
+        log.append(f'[translator {t}] ' + p.stdout[-2000:] + p.stderr[-2000:])
+        ok = ok and p.returncode == 0
+    return ok
 
 
 def lean_check(prop, bdir):
@@ -99,7 +106,8 @@ def lean_check(prop, bdir):
             for ln in src.splitlines():
                 if FORBIDDEN.search(ln):
                     res['broken'].append(f'forbidden construct in {m}: {ln.strip()[:80]}')
-        p = subprocess.run(['lake', 'build', f'Properties.{prop}'], cwd=LEAN, capture_output=True, text=True)
+        p = subprocess.run(['lake', 'build', f'Properties.{prop}'] + sidecar(prop).get('drivers', []), cwd=LEAN,
+                           capture_output=True, text=True)
         out = p.stdout + p.stderr
         if p.returncode != 0 or not ok_gen:
             res['log'].append(out[-6000:])
